@@ -450,6 +450,8 @@ func checkTaintedBounds(p *Prog, r *Report, entries []*ssa.Function) {
 			}
 		}
 	}
+	checkIntDivision(p, r, funcs)
+	checkPtrNonEmpty(p, r)
 	r.Info("C08/TAINTED-BOUNDS: %d tainted sink operands in %d functions, %d tainted values [%s]", nSinks, len(funcs), len(t.tainted), p.Config)
 
 	// SumHead fields are bounded by (*SumHead).ReadFrom itself
@@ -487,6 +489,135 @@ func checkTaintedBounds(p *Prog, r *Report, entries []*ssa.Function) {
 			}
 			n := need[name]
 			r.Cond(okRet != nil && (gotLo || !n.lo) && (gotHi || !n.hi), rule2, "ReadFrom validates "+name, p.Pos(rf.Pos()), "nil-error return not dominated by the range test(s) of this field")
+		}
+	}
+}
+
+// checkIntDivision: integer division/modulo by a divisor that is not a
+// non-zero constant needs a dominating non-zero test (or a max(…, positive
+// constant) provenance): a zero divisor panics and takes the process down.
+func checkIntDivision(p *Prog, r *Report, funcs []*ssa.Function) {
+	rule := "C08/INT-DIVISION"
+	r.Rule(rule, "in session-reachable module code every integer / or % whose divisor is not a non-zero constant is dominated by a test that excludes zero, or its divisor is max(…, positive constant) / a positive-constant-offset of a non-negative length", 2)
+	for _, fn := range funcs {
+		for _, b := range fn.Blocks {
+			for _, in := range b.Instrs {
+				bo, ok := in.(*ssa.BinOp)
+				if !ok || (bo.Op != token.QUO && bo.Op != token.REM) || !isIntType(bo.Type()) {
+					continue
+				}
+				if k, isK := constInt(bo.Y); isK {
+					if k == 0 {
+						r.Bad(rule, funcKey(fn)+" divides by constant zero", p.Pos(bo.Pos()), "")
+					}
+					continue
+				}
+				ok2 := nonZeroByConstruction(bo.Y, 0)
+				for _, f := range cmpFactsFor(bo.Y, bo) {
+					k, isK := constInt(f.other)
+					switch f.op {
+					case token.GTR:
+						if isK && k >= 0 {
+							ok2 = true
+						}
+					case token.GEQ:
+						if isK && k >= 1 {
+							ok2 = true
+						}
+					case token.NEQ:
+						if isK && k == 0 {
+							ok2 = true
+						}
+					}
+				}
+				r.Cond(ok2, rule, funcKey(fn)+" integer "+bo.Op.String(), p.Pos(bo.Pos()), "divisor may be zero (no dominating non-zero test): a peer- or file-controlled zero panics the process")
+			}
+		}
+	}
+}
+
+func nonZeroByConstruction(v ssa.Value, depth int) bool {
+	if depth > 6 {
+		return false
+	}
+	v = stripConv(v)
+	switch x := v.(type) {
+	case *ssa.Const:
+		k, ok := constInt(x)
+		return ok && k != 0
+	case *ssa.Call:
+		if bi, ok := x.Common().Value.(*ssa.Builtin); ok && bi.Name() == "max" {
+			for _, a := range x.Common().Args {
+				if k, ok := constInt(a); ok && k > 0 {
+					return true
+				}
+			}
+		}
+	case *ssa.UnOp:
+		if u := unwrapLocal(x); u != ssa.Value(x) {
+			return nonZeroByConstruction(u, depth+1)
+		}
+		// field of a struct built locally from a max(...) value
+		if _, f := loadedField(x); f != nil {
+			return false
+		}
+	case *ssa.Field:
+		return false
+	}
+	return false
+}
+
+// checkPtrNonEmpty: (*mapStruct).ptr returns a nil slice for a zero length;
+// indexing its result needs a dominating emptiness test.
+func checkPtrNonEmpty(p *Prog, r *Report) {
+	rule := "C08/PTR-NONEMPTY"
+	r.Rule(rule, "(*sender.mapStruct).ptr returns nil for a zero length (a peer-supplied block length of 0, or checksums for an empty file, lead there): every element access on a slice obtained from it is dominated by a test that the slice is not empty", 2)
+	fromPtr := func(v ssa.Value) bool {
+		for i := 0; i < 6; i++ {
+			switch x := v.(type) {
+			case *ssa.Slice:
+				v = x.X
+				continue
+			case *ssa.Extract:
+				c, ok := x.Tuple.(*ssa.Call)
+				return ok && x.Index == 0 && calleeName(c) == "(*"+pkgSender+".mapStruct).ptr"
+			}
+			return false
+		}
+		return false
+	}
+	for _, fn := range p.FuncsInPkg(pkgSender) {
+		for _, b := range fn.Blocks {
+			for _, in := range b.Instrs {
+				ia, ok := in.(*ssa.IndexAddr)
+				if !ok || !fromPtr(ia.X) {
+					continue
+				}
+				nonEmpty := false
+				for _, f := range FactsAt(ia) {
+					bo, ok := f.Cond.(*ssa.BinOp)
+					if !ok {
+						continue
+					}
+					lc, ok := bo.X.(*ssa.Call)
+					if !ok {
+						continue
+					}
+					bi, ok := lc.Common().Value.(*ssa.Builtin)
+					if !ok || bi.Name() != "len" || lc.Common().Args[0] != ia.X {
+						continue
+					}
+					k, isK := constInt(bo.Y)
+					op := bo.Op
+					if !f.Val {
+						op = negOp(op)
+					}
+					if isK && ((op == token.NEQ && k == 0) || (op == token.GTR && k >= 0) || (op == token.GEQ && k >= 1)) {
+						nonEmpty = true
+					}
+				}
+				r.Cond(nonEmpty, rule, funcKey(fn)+" indexes a window slice", p.Pos(ia.Pos()), "element access on the result of ptr() without a dominating len(...) != 0 test: an empty file with checksums (or block length 0) from the peer panics the sender")
+			}
 		}
 	}
 }
